@@ -2193,6 +2193,19 @@ func (in *Interp) typeAssertOk(v Val, t types.Type, st *State, k func(*State, Va
 		k(st, Val{K: KTuple, Elems: []Val{in.zeroValue(t, st), boolVal(false)}})
 		return
 	}
+	if v.DynT != nil {
+		// the dynamic type is known: the assertion is decided
+		holds := types.Identical(v.DynT, t)
+		if it, ok := t.Underlying().(*types.Interface); ok && types.Implements(v.DynT, it) {
+			holds = true
+		}
+		if holds {
+			k(st, Val{K: KTuple, Elems: []Val{res, boolVal(true)}})
+		} else {
+			k(st, Val{K: KTuple, Elems: []Val{in.zeroValue(t, st), boolVal(false)}})
+		}
+		return
+	}
 	atom := "is(" + v.String() + "," + types.TypeString(t, relQual) + ")"
 	if v.K != KExpr {
 		atom = ""
